@@ -331,7 +331,7 @@ class C05GridMismatch(Harness):
             for n1, n2 in itertools.product((0, 1, 2), (0, 1, 2)):
                 if n1 == 0 and n2 == 0:
                     continue
-                if tier == "quick" and n1 and n2 and (n1, n2) != (1, 2):
+                if tier == "quick" and n1 and n2 and (n1, n2) not in ((1, 2), (1, 1), (2, 2)):
                     continue
                 yield f"grid-{kind}-{n1}-{n2}", dict(kind=kind, n=[n1, n2])
 
